@@ -12,6 +12,7 @@ import ZygoVerif.Model.EvalData
 import ZygoVerif.Model.LegacyReadPrint
 import ZygoVerif.Model.LegacyLexer
 import ZygoVerif.Spec.DataValue
+import ZygoVerif.Spec.LiteralHistory
 import ZygoVerif.Generated.ReadPrint
 import ZygoVerif.Generated.LexTables
 import ZygoVerif.Proofs.ReadPrintMain
@@ -309,6 +310,71 @@ theorem printer_calls_match : Generated.ReadPrint.printerCalls =
 /-- a string key of a hash is printed with `strconv.Quote` (fix C12-04) -/
 theorem hash_string_key_match :
     Generated.ReadPrint.hashStringKey = "str += indInner + strconv.Quote(s.S) + \":\"" := by decide
+
+/-! ## History independence: a literal's value is a function of its spelling alone
+
+Law: `Spec.LiteralHistory.HistoryIndependent`. The specification's reader obeys it by construction
+(`spec_history_independent`). The real reader is ONE `Parser` per interpreter that lives as long as the
+interpreter (`read`, `eval`, `source`, `EvalString` share it): the `rt H` ops run 2–6 spellings / print-read
+round trips on one long-lived reader and compare every step with the specification's answer to that step alone. -/
+section History
+open ZygoVerif.Spec.LiteralHistory
+
+/-- the reader model as a reader with memory. Its state is the lexer state the history left behind — the only
+state the model has, and (`parser_state_inventory`) the only state the real `Parser` has; `nxt` is whatever
+state a text leaves. The answer is status + expressions of `parseChunksFrom`. -/
+def modelReader (nxt : LexState → List Char → LexState) : Reader LexState (Status × List Sexp) :=
+  ⟨fun l t => (((parseChunksFrom l [t]).status, (parseChunksFrom l [t]).exprs), nxt l t)⟩
+
+/-- **`model_reader_history_independent`** — the reader model obeys the law from every initial state and
+whatever state each text leaves: in every history every text (any text, not only numerals) gets the answer it
+gets when read alone. (From C13's `parseChunksFrom_eq_abstract`: the result does not depend on the lexer state.) -/
+theorem model_reader_history_independent (nxt : LexState → List Char → LexState) (l0 : LexState) :
+    HistoryIndependent (modelReader nxt) l0 :=
+  historyIndependent_of_answer_stateless _ (fun s s' t => by
+    obtain ⟨a1, b1⟩ := Props.C13.parseChunksFrom_eq_abstract s [t]
+    obtain ⟨a2, b2⟩ := Props.C13.parseChunksFrom_eq_abstract s' [t]
+    show ((parseChunksFrom s [t]).status, (parseChunksFrom s [t]).exprs)
+       = ((parseChunksFrom s' [t]).status, (parseChunksFrom s' [t]).exprs)
+    rw [a1, b1, a2, b2]) l0
+
+/-- instance (the theorem has no hypotheses): the fresh reader, any history — e.g. `0b101`, `101`, `0x101` -/
+example : (modelReader (fun l _ => l)).run LexState.init ["0b101".toList, "101".toList, "0x101".toList]
+    = ["0b101".toList, "101".toList, "0x101".toList].map (fun t => ((modelReader (fun l _ => l)).read LexState.init t).1) :=
+  model_reader_history_independent (fun l _ => l) LexState.init _
+
+/-- T1: the state of the real `Parser` (regenerated field list). Every field is either reassigned whenever a
+new text is handed in (`ResetAddNewInput`), or is on the explicit list: the lexer (its own fields are covered
+by C13's `reset_assigns_every_field`), the interpreter, and two per-expression flags. A table that remembers
+earlier texts (a memo of converted literals, an interning cache) is a new field and breaks this. -/
+theorem parser_state_inventory :
+    ∀ f ∈ Generated.LexTables.parserFields,
+      f ∈ ["lexer", "env", "inBacktick", "recur"] ∨ f ∈ Generated.LexTables.parserResetAddNewInputAssigns := by
+  decide
+
+/-- the law has teeth — a reader that remembers converted integer literals by their DIGITS alone (what
+`DecodeAtom` leaves of `0b101`, `0x101`, `1_01`: the notation is only in the token type) -/
+def digitMemoReader : Reader (List (List Char × Nat)) Nat :=
+  ⟨fun memo t =>
+    let bd : Nat × List Char := match t with
+      | '0' :: 'x' :: d => (16, d)
+      | '0' :: 'o' :: d => (8, d)
+      | '0' :: 'b' :: d => (2, d)
+      | d => (10, d)
+    match memo.lookup bd.2 with
+    | some v => (v, memo)
+    | none =>
+      let v := bd.2.foldl (fun a c => a * bd.1 + (c.toNat - 48)) 0
+      (v, (bd.2, v) :: memo)⟩
+
+/-- after `0b101` the decimal `101` reads as 5: such a reader violates the law -/
+theorem history_law_counterexample_digit_memo : ¬ HistoryIndependent digitMemoReader [] := by
+  intro h
+  have h2 := h ["0b101".toList, "101".toList]
+  revert h2
+  decide
+
+end History
 
 /-! ## Counterexamples: the code before the fixes (Model/LegacyReadPrint) -/
 
